@@ -206,8 +206,14 @@ def _mk_table(W, data, names, include):
         names = [f"f{i}" for i in range(len(data))]
     cols = {}
     np = W.np
-    for nm, values in zip(names, data):
-        if include and nm not in include: continue
+    pairs = list(zip(names, data))
+    if include:
+        # pyarrow: "only these columns will be included, in this order"; a requested name that is not there is an error
+        have = dict(pairs)
+        for nm in include:
+            if nm not in have: raise KeyError(f"Column '{nm}' in include_columns does not exist")
+        pairs = [(nm, have[nm]) for nm in include]
+    for nm, values in pairs:
         vals = list(values)
         present = [v for v in vals if v is not None]
         tn = {type(v).__name__ for v in present}
